@@ -478,6 +478,12 @@ def extract_flags():
     src = inspect.getsource(dm.Manager._send_ping_reset_timer)
     flags["ping_timer_uses_delay"] = ".delay(" in src
     flags["ping_timer_uses_reset"] = ".reset(" in src
+    # C17: does Dilator.stop() stop the wormhole's Cooperator (which drives the pull-producers registered on
+    # subchannels; a stopped Cooperator's tasks raise SchedulerStopped from pause()/resume())?
+    dstop = ast.parse(textwrap.dedent(inspect.getsource(dm.Dilator.stop))).body[0]
+    flags["dilator_stop_stops_cooperator"] = any(
+        isinstance(n, ast.Call) and _call_name(n) in ("_cooperator.stop", "_cooperator.stopService")
+        for n in ast.walk(dstop))
     # C17: what `_find_shared_versions` does with the peer's (JSON) `can-dilate` value before building a set of it:
     # does it take anything that is not a list/tuple as "no versions", and does it keep only the str entries?
     fsv = ast.parse(textwrap.dedent(inspect.getsource(dm._find_shared_versions))).body[0]
@@ -908,6 +914,30 @@ def extract_flags():
               and any(isinstance(x, ast.Raise) for b in n.body for x in ast.walk(b))]
     flags["demux_refuses_only_when_expected_given"] = (
         len(raises) == 1 and ast.unparse(raises[0].test) == "self._expected is not None and name not in self._expected")
+    # C12: DilatedConnectionProtocol's parked records belong to three methods only — the initialiser creates the
+    # list, queue_inbound_record appends, process_inbound_queue (run by select) drains; nothing else (connectionLost,
+    # disconnect, …) reads, replaces or empties it
+    dcp_cls = ast.parse(textwrap.dedent(inspect.getsource(_dcn.DilatedConnectionProtocol))).body[0]
+    touching = set()
+    for st in dcp_cls.body:
+        if isinstance(st, ast.FunctionDef) and any(isinstance(n, ast.Attribute) and n.attr == "_inbound_record_queue"
+                                                   for n in ast.walk(st)):
+            touching.add(st.name)
+    flags["dcp_inbound_queue_private"] = touching == {"__attrs_post_init__", "queue_inbound_record", "process_inbound_queue"}
+    # C12: flow control is a plain forward to the transport (one statement each), connectionLost only fires the
+    # observer, and dataReceived hands EVERY token of a read on: its for-loop has no break / continue / return
+    def _plain(name, expr):
+        fn = next(st for st in dcp_cls.body if isinstance(st, ast.FunctionDef) and st.name == name)
+        body = [st for st in fn.body if not (isinstance(st, ast.Expr) and isinstance(st.value, ast.Constant))]
+        return len(body) == 1 and isinstance(body[0], ast.Expr) and ast.unparse(body[0].value) == expr
+    dr = next(st for st in dcp_cls.body if isinstance(st, ast.FunctionDef) and st.name == "dataReceived")
+    loops = [n for n in ast.walk(dr) if isinstance(n, (ast.For, ast.While))]
+    whole = (len(loops) == 1 and isinstance(loops[0], ast.For) and not loops[0].orelse
+             and not any(isinstance(n, (ast.Break, ast.Continue, ast.Return)) for n in ast.walk(dr)))
+    flags["dcp_flow_control_plain_and_reads_handled_whole"] = (
+        _plain("pauseProducing", "self.transport.pauseProducing()")
+        and _plain("resumeProducing", "self.transport.resumeProducing()")
+        and _plain("connectionLost", "self._disconnected.fire(self)") and whole)
     return flags
 
 
@@ -1525,6 +1555,27 @@ def _c02_call_args(func, callee):
     return out
 
 
+def _c02_boss_rx_state():
+    """how Boss._init_other_state creates the four fields of the two in-order inbound streams: one entry per
+    assignment statement that touches them, (its attribute targets in source order, the value's source text).  Two streams
+    need two separate containers: a chained `a = b = {}` or a helper object shows up here as a different shape."""
+    from wormhole import _boss
+    fields = {"_next_rx_phase", "_rx_phases", "_next_rx_dilate_seqnum", "_rx_dilate_seqnums"}
+    tree = ast.parse(textwrap.dedent(inspect.getsource(_boss.Boss._init_other_state)))
+    out = []
+    for st in ast.walk(tree):
+        if isinstance(st, (ast.Assign, ast.AnnAssign, ast.AugAssign)):
+            tg = st.targets if isinstance(st, ast.Assign) else [st.target]
+            names = []
+            for t in tg:
+                for n in ast.walk(t):
+                    if isinstance(n, ast.Attribute) and isinstance(n.value, ast.Name) and n.value.id == "self":
+                        names.append(n.attr)
+            if fields & set(names):
+                out.append((names, ast.unparse(st.value) if st.value is not None else ""))
+    return out
+
+
 def extract_c02():
     from wormhole import _key, _receive, _send
     tree = ast.parse(textwrap.dedent(inspect.getsource(_key.derive_phase_key)))
@@ -1562,6 +1613,9 @@ def extract_c02():
          "def computeKeyArgs : List (List String) := [" + ", ".join("[" + ", ".join(lean_str(a) for a in c) + "]" for c in _c02_call_args(vars(_key._SortedKey)["compute_key"], "derive_phase_key")) + "]",
          "def sendKeyArgs : List (List String) := [" + ", ".join("[" + ", ".join(lean_str(a) for a in c) + "]" for c in _c02_call_args(_send.Send._encrypt_and_send, "derive_phase_key")) + "]",
          "def receiveDecryptArgs : List (List String) := [" + ", ".join("[" + ", ".join(lean_str(a) for a in c) + "]" for c in _c02_call_args(_receive.Receive.got_message, "decrypt_data")) + "]",
+         "/-- Boss._init_other_state: the assignments creating the cursors and parking dicts of the two in-order streams -/",
+         "def bossRxState : List (List String × String) := [" + ", ".join(
+             "([" + ", ".join(lean_str(n) for n in names) + "], " + lean_str(v) + ")" for names, v in _c02_boss_rx_state()) + "]",
          "end WV.Gen.C02"]
     return "\n".join(L) + "\n"
 
